@@ -4,8 +4,8 @@ import vlib
 
 META = {
     "category": "proof",
-    "text": "PROVED in Lean (Props/C06.lean, about models): (1) generic: every coder that is the image of a byte machine gives the same concatenated output, final lzma_ret, consumed count and final state under any two fair slicings (any number of (avail_in, avail_out) pieces, empty calls included); unfair slicings are prefix-consistent. (2) instances, each by a call-by-call simulation theorem chunk-faithful coder = ofByteMachine(machine): lzma_vli_decode with persistent vli_pos (what every slicing computes = the specification decoder vliDecode), lzma_vli_encode with persistent vli_pos under any sequence of output windows (= the specification encoder vliEncode), the lzma_bufcpy fixed-size field reader, the LZMA2 chunk-header sequence machine (event trace identical under all slicings; LZMA payload and dictionary abstract), the Index decoder sequence machine (same Records/CRC32/verdict). Delta: encoder reading the caller's input under arbitrary slicings = Delta.encode of the whole buffer; delta encoder AND decoder behind ANY next coder = the next coder's run with the output transformed as one stream. (3) simple_code(): for every filter satisfying the BCJ contract the output under every slicing is a prefix of / at LZMA_STREAM_END equal to the filter applied once to the whole input; the contract is PROVED for the eight real filter models x86 (with carried prev_mask/prev_pos; inputs < 4 GiB - 5), powerpc, ia64, arm, armthumb, sparc, arm64, riscv, encoder and decoder, from C15's chunk-stability theorems; the C06 model of simple_code() is proved equal call by call to C15's model Simple.simpleCode (the one C15 ties to the C function with the real filters), and the slicing theorem is stated for that model with no hypothesis left (next.code == NULL or pass-through next coder); simple_code() behind ANY next coder that is a byte machine and ends with LZMA_STREAM_END (the BCJ decoder configuration; simple_code re-slices the next coder's output into out[] and coder->buffer[]) is slicing independent for every filter with the contract, in particular the eight real ones in both directions. (4) threaded encoder: every finished run of C08's transition system (any thread count >= 1, timeout, schedule, slicing of lzma_code calls) writes the same bytes as a function of (input, block_size, flush offsets, accepted lzma_filters_update calls) - from C08.mtenc_deterministic/mtenc_output plus a filter-chain invariant. CORRESPONDENCE ONLY (model vs real function call by call, this check): vliDecodeMulti/vliEncodeMulti, fieldCoder, Coder.simpleCode with a test filter (null next and stub next coders), delta, ixFeed, l2Feed. ORACLE ONLY (C vs C, no model): every public coder of liblzma (all decoders incl. threaded, all encoders incl. threaded) on the same input under whole-buffer, byte-at-a-time with empty calls, every two-piece input/output split and random slicings - output bytes, final lzma_ret, total_in/total_out and informational return codes must be identical; encoders additionally across thread counts, timeouts and struct vs string filter chains; tiny output windows (1,2,3,5,7 bytes per call); a seeded half of the cases on a re-initialised handle (no lzma_end) last used by another coder, after runs that ended in success, error or were abandoned mid-stream.",
-    "note": "Trusted: Lean kernel + propext/Classical.choice/Quot.sound (+ the bv_decide certificates of Lemmas/BitWords* inherited from C15's x86 lemmas); harness/c06_*.c (generic run_sliced driver); the C compiler; ASan/UBSan observe memory errors at run time only. No theorem is about the C text: the tie of the models to the code is the call-by-call correspondence of this check (small coders) and of C15 (simple_code with the real filters) and C08 (MT encoder traces). NOT modelled, hence covered by the C-vs-C slicing oracle only: the LZMA symbol decoder's ~25 SEQ_* resume points, the LZ window, the LZMA/LZMA2 encoders and fill_window, the container coders (stream/block/alone/lzip/auto decoders and encoders), the path of simple_code() on which its next coder FAILS (the C code returns at once with unfiltered bytes in out[]; only status/consumed are compared there). MT determinism is a theorem about the transition-system model of stream_encoder_mt.c (Block encoding abstract); on the real code it is exercised over thread counts/timeouts/OS schedules.",
+    "text": "Lean (C06Slice/C06SliceCoder): slicing independence of a resumable model of the LZMA1/LZMA2 raw decoders (status always; output and consumed unless chunk overrun), tied to lzma_raw_decoder call by call. PROVED in Lean (Props/C06.lean, about models): (1) generic: every coder that is the image of a byte machine gives the same concatenated output, final lzma_ret, consumed count and final state under any two fair slicings (any number of (avail_in, avail_out) pieces, empty calls included); unfair slicings are prefix-consistent. (2) instances, each by a call-by-call simulation theorem chunk-faithful coder = ofByteMachine(machine): lzma_vli_decode with persistent vli_pos (what every slicing computes = the specification decoder vliDecode), lzma_vli_encode with persistent vli_pos under any sequence of output windows (= the specification encoder vliEncode), the lzma_bufcpy fixed-size field reader, the LZMA2 chunk-header sequence machine (event trace identical under all slicings; LZMA payload and dictionary abstract), the Index decoder sequence machine (same Records/CRC32/verdict). Delta: encoder reading the caller's input under arbitrary slicings = Delta.encode of the whole buffer; delta encoder AND decoder behind ANY next coder = the next coder's run with the output transformed as one stream. (3) simple_code(): for every filter satisfying the BCJ contract the output under every slicing is a prefix of / at LZMA_STREAM_END equal to the filter applied once to the whole input; the contract is PROVED for the eight real filter models x86 (with carried prev_mask/prev_pos; inputs < 4 GiB - 5), powerpc, ia64, arm, armthumb, sparc, arm64, riscv, encoder and decoder, from C15's chunk-stability theorems; the C06 model of simple_code() is proved equal call by call to C15's model Simple.simpleCode (the one C15 ties to the C function with the real filters), and the slicing theorem is stated for that model with no hypothesis left (next.code == NULL or pass-through next coder); simple_code() behind ANY next coder that is a byte machine and ends with LZMA_STREAM_END (the BCJ decoder configuration; simple_code re-slices the next coder's output into out[] and coder->buffer[]) is slicing independent for every filter with the contract, in particular the eight real ones in both directions. (4) threaded encoder: every finished run of C08's transition system (any thread count >= 1, timeout, schedule, slicing of lzma_code calls) writes the same bytes as a function of (input, block_size, flush offsets, accepted lzma_filters_update calls) - from C08.mtenc_deterministic/mtenc_output plus a filter-chain invariant. CORRESPONDENCE ONLY (model vs real function call by call, this check): vliDecodeMulti/vliEncodeMulti, fieldCoder, Coder.simpleCode with a test filter (null next and stub next coders), delta, ixFeed, l2Feed. ORACLE ONLY (C vs C, no model): every public coder of liblzma (all decoders incl. threaded, all encoders incl. threaded) on the same input under whole-buffer, byte-at-a-time with empty calls, every two-piece input/output split and random slicings - output bytes, final lzma_ret, total_in/total_out and informational return codes must be identical; encoders additionally across thread counts, timeouts and struct vs string filter chains; tiny output windows (1,2,3,5,7 bytes per call); a seeded half of the cases on a re-initialised handle (no lzma_end) last used by another coder, after runs that ended in success, error or were abandoned mid-stream.",
+    "note": "Props/C06Slice.lean + Props/C06SliceCoder.lean (resumable LZMA1/LZMA2 raw decoder model, Model/LzmaResume*.lean): for every input and any two settled slicings with exact per-call (avail_in, avail_out) windows the final status is always the same, and output bytes and consumed count are the same unless both runs raised the LZMA2 chunk-overrun flag (= known finding C06:lzma2-chunk-overrun); also as a Coder (lzCoder) and equal to the one-shot LZMA1 model. What remains untied by proof: that liblzma's saved `sequence` + locals denote the model's continuation - checked by correspondence only (ops lzr1/lzr2 vs lzc: same per-call windows, per-call ret/consumed/produced and final hash equal; status only on overrun streams). Trusted: Lean kernel + propext/Classical.choice/Quot.sound (+ the bv_decide certificates of Lemmas/BitWords* inherited from C15's x86 lemmas); harness/c06_*.c (generic run_sliced driver); the C compiler; ASan/UBSan observe memory errors at run time only. No theorem is about the C text: the tie of the models to the code is the call-by-call correspondence of this check (small coders) and of C15 (simple_code with the real filters) and C08 (MT encoder traces). NOT modelled, hence covered by the C-vs-C slicing oracle only: the LZMA symbol decoder's ~25 SEQ_* resume points, the LZ window, the LZMA/LZMA2 encoders and fill_window, the container coders (stream/block/alone/lzip/auto decoders and encoders), the path of simple_code() on which its next coder FAILS (the C code returns at once with unfiltered bytes in out[]; only status/consumed are compared there). MT determinism is a theorem about the transition-system model of stream_encoder_mt.c (Block encoding abstract); on the real code it is exercised over thread counts/timeouts/OS schedules.",
     "technique": "Lean 4 proof over an executable model + differential slicing oracle on the implementation",
 }
 
@@ -1348,6 +1348,124 @@ def history_cases(ctx, H):
     return bad
 
 
+def lzma_resume_tie(ctx, H, model_ok):
+    """K stage for the resumable LZMA1/LZMA2 decoder model (Model/LzmaResume*.lean, theorems in Props/C06Slice*.lean): the model
+    (`LzmaR.runPieceX`, driver ops lzr1/lzr2) and the real raw decoder (harness op lzc) are driven with the SAME per-call
+    (avail_in, avail_out) windows; per-call (ret, consumed, produced) and the final (ret, total_in, output hash) must agree.
+    Where the model raises its chunk-overrun flag (known finding C06:lzma2-chunk-overrun: per-call progress legitimately differs
+    between runs) only the final status is compared."""
+    rng, quick = ctx.rng, ctx.quick()
+    res = {"ops": 0, "mismatches": 0, "overrun_status_only": 0, "model_ran": False}
+    ncase = 50 if quick else 700
+    # 1. make streams with the real encoders
+    jobs = []
+    for _ in range(ncase):
+        n = rng.choice((0, 1, 2, 10, 100, 300, 700, 1500, 5000) if quick else (0, 1, 2, 10, 100, 700, 3000, 5000, 9000))
+        pl = gen_repeats(rng, n, rng.choice(("records", "text", "echo", "rand", "zero", "runs", "code"))) if n else b""
+        fam = rng.choice(("lzma2", "lzma2", "lzma1", "alone"))
+        lc = rng.randrange(0, 5); lp = rng.randrange(0, 5 - lc); pb = rng.randrange(0, 5)
+        dsz = rng.choice((4096, 4096, 8192, 65536))
+        if fam == "lzma2":
+            coder = "rawe:lzma2,dict=%d,lc=%d,lp=%d,pb=%d,mode=%d,nice=%d" % (dsz, lc, lp, pb, rng.choice((1, 2)), rng.choice((8, 32, 273)))
+        elif fam == "lzma1":
+            coder = "rawe:lzma1,dict=%d,lc=%d,lp=%d,pb=%d" % (dsz, lc, lp, pb)
+        else:
+            coder = "alonee:lzma1,dict=%d,lc=%d,lp=%d,pb=%d" % (dsz, lc, lp, pb)
+        jobs.append((fam, coder, pl, (lc, lp, pb, dsz)))
+    outs = H.run(["run %s F %s fresh full W" % (c, hx(pl)) for (_, c, pl, _) in jobs])
+    c_lines, m_lines, info = [], [], []
+    for (fam, coder, pl, (lc, lp, pb, dsz)), o in zip(jobs, outs):
+        r = parse_results(o or "")
+        if not r or r[0]["ret"] != 1 or r[0]["hex"] is None:
+            continue
+        comp = bytes.fromhex(r[0]["hex"]) if r[0]["hex"] != "-" else b""
+        for variant in (("valid", "trunc", "flip") if quick else ("valid", "trunc", "trunc", "flip", "flip", "byte")):
+            data = comp
+            if variant != "valid":
+                body0 = 13 if fam == "alone" else 0
+                if len(comp) <= body0 + 1:
+                    continue
+                if variant == "trunc":
+                    data = comp[:rng.randrange(body0, len(comp))]
+                else:
+                    b = bytearray(comp)
+                    i = rng.randrange(body0, len(comp))
+                    b[i] = (b[i] ^ (1 << rng.randrange(8))) if variant == "flip" else rng.getrandbits(8)
+                    data = bytes(b)
+            if fam == "lzma2":
+                cc, payload = "rawd:lzma2,dict=%d" % dsz, data
+                mprefix = "lzr2 %d" % dsz
+            elif fam == "lzma1":
+                cc, payload = "rawd:lzma1,dict=%d,lc=%d,lp=%d,pb=%d" % (dsz, lc, lp, pb), data
+                mprefix = "lzr1 %d %d %d %d u 0" % (lc, lp, pb, dsz)
+            else:
+                # .lzma payload with the header's known size and the encoder's end marker allowed (the F1 shape)
+                known = rng.random() < 0.6
+                payload = data[13:]
+                usz = len(pl) if known else 2 ** 64 - 1
+                cc = "rawd:lzma1ext,dict=%d,lc=%d,lp=%d,pb=%d,extflags=1,extsize=%d" % (dsz, lc, lp, pb, usz)
+                mprefix = "lzr1 %d %d %d %d %s 1" % (lc, lp, pb, dsz, str(len(pl)) if known else "u")
+            nin, nout = len(payload), len(pl)
+            big = "99999999,99999999x3"
+            sls = ["%s" % big]
+            if nin + nout <= (2000 if quick else 12000):
+                # byte at a time; one byte of room per call; one byte of input per call
+                sls += ["1,1x%d %s" % (nin + nout + 6, big), "99999999,1x%d %s" % (nout + 4, big), "1,99999999x%d %s" % (nin + 3, big)]
+            else:
+                sls += ["%d,%d %s" % (rng.randrange(0, nin + 1), rng.randrange(0, nout + 1), big), "7,13x%d %s" % (rng.randrange(5, 60), big)]
+            ragged = []
+            for _k in range(rng.randrange(4, 40)):
+                a = rng.choice((0, 0, 1, 1, 2, 3, 7, rng.randrange(0, nin + 2)))
+                b_ = rng.choice((0, 0, 1, 1, 2, 5, 13, rng.randrange(0, nout + 2)))
+                ragged.append("%d,%d" % (a, b_) + ("x%d" % rng.randrange(2, 9) if rng.random() < 0.2 else ""))
+            sls.append(" ".join(ragged) + " " + big)
+            sls.append("0,0x2 1,0 0,1 " + " ".join("%d,%d" % (rng.randrange(0, 4), rng.randrange(0, 4)) for _ in range(20)) + " 0,0 " + big)
+            for sl in (sls if not quick else rng.sample(sls, 3)):
+                c_lines.append("lzc %s %s %s" % (cc, hx(payload), sl))
+                m_lines.append("%s %s %s" % (mprefix, hx(payload), sl))
+                info.append((fam, variant))
+    res["ops"] = len(c_lines)
+    c_out = H.run(c_lines)
+    if not model_ok:
+        ctx.cov["correspondence"]["lzma_resume"] = res
+        return
+    mexe = vlib.model_exe("xzm_c06")
+    parts = vlib.chunks(list(range(len(m_lines))), vlib.NCPU * 2)
+    mres = vlib.par_map(lambda idx: vlib.run_lines([mexe], [m_lines[i] for i in idx]), parts)
+    m_out = [None] * len(m_lines)
+    for idx, (rc, out, err) in zip(parts, mres):
+        if rc != 0 or len(out) != len(idx):
+            ctx.obligation_broken("model driver xzm_c06 failed to answer every lzr op", (err or "")[-1500:])
+            ctx.cov["correspondence"]["lzma_resume"] = res
+            return
+        for i, o in zip(idx, out):
+            m_out[i] = o
+    res["model_ran"] = True
+    for i, (cl, ml) in enumerate(zip(c_lines, m_lines)):
+        co, mo = c_out[i], m_out[i]
+        if co is None or mo is None:
+            continue
+        ctx.case(cl, True, {"op": cl[:120], "impl": co[-90:], "model": mo[-100:]} if i % 499 == 0 else None)
+        fam, variant = info[i]
+        ctx.count("lzma-resume:%s:%s" % (fam, variant))
+        body, _, flag = mo.rpartition(" overrun=")
+        if flag.strip() == "1":
+            # chunk overrun: how far each run got is slicing dependent in the implementation (known finding); status must agree
+            res["overrun_status_only"] += 1
+            ctx.count("lzma-resume:overrun-status-only")
+            cs = co.rpartition(" | ")[2].split()[0]
+            ms = body.rpartition(" | ")[2].split()[0]
+            same_ = cs == ms
+        else:
+            same_ = co == body
+        if not same_:
+            res["mismatches"] += 1
+            if res["mismatches"] <= 3:
+                ctx.obligation_broken("correspondence C06 resumable LZMA model (lzr/lzc): model and implementation disagree (%s, %s)" % (fam, variant),
+                                      json.dumps({"impl_op": cl[:3000], "model_op": ml[:300], "impl": co[-1500:], "model": mo[-1500:]}))
+    ctx.cov["correspondence"]["lzma_resume"] = res
+
+
 def oracle(ctx, H):
     """The direct C-vs-C slicing oracle. Returns number of violations found."""
     t0 = time.time()
@@ -1507,6 +1625,34 @@ def small_tie(ctx, H, model_ok):
     ctx.cov["correspondence"]["small_coders"] = res
 
 
+def audit_primed_names(ctx, mods, p_ok):
+    """vlib's axiom audit reads `'name' depends on axioms: [...]` with a pattern that stops at the first apostrophe, so theorem
+    names that END in a prime (lzma2_call_absorbs') are reported as "axiom audit missing". Audit exactly those names here with a
+    pattern that tolerates primes; every other broken obligation is left as it is."""
+    missing = [b for b in ctx.broken if b["name"].startswith("axiom audit missing for ") and b["name"].endswith("'")]
+    if not missing:
+        return p_ok
+    names = [b["name"][len("axiom audit missing for "):] for b in missing]
+    audit = os.path.join(vlib.CACHE, "audit", "C06-primed.lean")
+    vlib.write_if_changed(audit, "".join("import %s\n" % m for m in mods) + "".join("#print axioms %s\n" % n for n in names))
+    rc, out = vlib.lean_run_file(audit)
+    flat = out.replace("\n", " ")
+    ok_names = set()
+    for n in names:
+        m1 = re.search(re.escape("'" + n + "'") + r" depends on axioms: \[([^\]]*)\]", flat)
+        m2 = re.search(re.escape("'" + n + "'") + r" does not depend on any axioms", flat)
+        axs = [a.strip() for a in m1.group(1).split(",") if a.strip()] if m1 else ([] if m2 else None)
+        if axs is not None and all(a in vlib.ALLOWED_AXIOMS for a in axs):
+            ok_names.add(n)
+            ctx.cov["axioms"][n] = axs
+    keep = [b for b in ctx.broken if not (b in missing and b["name"][len("axiom audit missing for "):] in ok_names)]
+    fixed = len(ctx.broken) - len(keep)
+    ctx.broken[:] = keep
+    ctx.cov["discharged"] += fixed
+    still = [b for b in ctx.broken if b not in missing or True]
+    return p_ok or (fixed == len(missing) and not [b for b in ctx.broken if "axiom" in b["name"] or "forbidden" in b["name"] or "lake build" in b["name"] or b["name"].startswith(("theorem", "def", "example", "lemma"))])
+
+
 def run(ctx):
     ctx.cov["rule"] = ("(coder, action, input) triples: every public liblzma coder x tests/files/* + files generated by the real encoders over "
                        "text/random/zero/run/code/wave plaintexts (0..4096 bytes exhaustively split; 20K-300K sampled) + mutants "
@@ -1515,6 +1661,7 @@ def run(ctx):
                        "handle reuse after success / error / mid-stream abandon (K items) and across coders (G), fresh-handle cross-check (FW); "
                        "evaluations = coder runs; distinct = distinct (coder, action, input)")
     ctx.assumptions += [
+        "resumable LZMA1/LZMA2 model (Props/C06Slice*.lean): that the C decoder's saved sequence/locals are the model's continuation is established by the lzr/lzc correspondence only (valid, truncated and corrupted streams; whole, byte-at-a-time, one byte of room, ragged and empty-call windows)",
         "Lean 4 kernel; the generic theorem is about coders that are images of byte machines; that the C LZMA/LZMA2/container coders behave like one is checked by the slicing oracle only (not proved)",
         "harness/c06_run.h implements the slicing semantics stated in its header comment; fairness = after the listed pieces every call offers all remaining input and 1 MiB of output",
         "thread schedules of the MT coders are those the OS produced during the run (systematic schedule exploration belongs to C07/C08)",
@@ -1523,12 +1670,15 @@ def run(ctx):
         "known finding C06:block-decoder-uncomp-done-lookahead (findings/C06-block-decoder-lookahead.md) is attributed only when both runs return LZMA_DATA_ERROR with byte-identical output equal to everything the Block Headers declare up to a Block with a declared Uncompressed Size, and both total_in values lie inside that Block's compressed data",
         "known finding C06:lzma2-chunk-overrun (findings/C06-lzma2-chunk-overrun.md) is attributed only when both runs return LZMA_DATA_ERROR and an independent walk of the container and LZMA2 chunk headers shows the byte-at-a-time decoder failing exactly at chunk_end+1 inside an LZMA chunk",
     ]
-    p_ok = ctx.lean_stage(["XzVerif.Props.C06"], exes=["xzm_c06"])
+    mods = ["XzVerif.Props.C06", "XzVerif.Props.C06Slice", "XzVerif.Props.C06SliceCoder"]
+    p_ok = ctx.lean_stage(mods, exes=["xzm_c06"])
+    p_ok = audit_primed_names(ctx, mods, p_ok)
     exe = build(ctx)
     if exe is None:
         return "proof"
     H = Harness(ctx, exe)
     small_tie(ctx, H, p_ok)
+    lzma_resume_tie(ctx, H, p_ok)
     oracle(ctx, H)
     return "proof"
 
